@@ -76,7 +76,7 @@ var clauseKeywords = map[string]bool{
 	"requires": true, "ensures": true, "assigns": true, "loop": true, "callback": true,
 	"resolves": true, "trusted": true, "inline": true, "holds": true, "assert": true,
 	"decreases": true, "hint": true, "modular": true, "spawns": true, "noframe": true,
-	"safety": true, "trigger": true, "assumes": true,
+	"safety": true, "trigger": true, "assumes": true, "defers": true,
 }
 
 var tagRe = regexp.MustCompile(`^\[([A-Z0-9, ]+)\]`)
@@ -333,7 +333,7 @@ func parseContractLines(lines []string, where []string, pkgPath string, file *as
 					}
 					cl.Exprs = append(cl.Exprs, e)
 				}
-			case "spawns", "modular", "noframe", "safety":
+			case "spawns", "modular", "noframe", "safety", "defers":
 			default:
 				e, err := ParseSpecExpr(cl.Text)
 				if err != nil {
